@@ -782,6 +782,34 @@ fn compound_cases(o: &mut Out, seed: u64, tier: &str) {
         o.ev(json!({"ev": "sp", "sp": "cmp", "op": "sample", "layout": kinds, "weights": weights, "resolution": res_ok, "stream": stream_ok,
                     "words": r1.log.len(), "insat": insat}));
     }
+    // SE(2) / SE(3) constructors: the number of bounds and the documented errors
+    for n in 0..=5usize {
+        let b: Vec<(f64, f64)> = vec![(0.0, 1.0); n];
+        let kind = |e: &StateSpaceError| match e {
+            StateSpaceError::InvalidBound { .. } => "InvalidBound",
+            StateSpaceError::DimensionMismatch { .. } => "DimensionMismatch",
+            StateSpaceError::ZeroDimensionUnbounded => "ZeroDimensionUnbounded",
+            StateSpaceError::InvalidAngularDistance { .. } => "InvalidAngularDistance",
+        };
+        let r2 = SE2StateSpace::new(1.0, Some(b.clone()));
+        o.ev(json!({"ev": "sp", "sp": "se2", "op": "new", "len": n, "ok": r2.is_ok(), "err": r2.as_ref().err().map(kind).unwrap_or("")}));
+        let r3 = SE3StateSpace::new(1.0, Some(b.clone()));
+        o.ev(json!({"ev": "sp", "sp": "se3", "op": "new", "len": n, "ok": r3.is_ok(), "err": r3.as_ref().err().map(kind).unwrap_or("")}));
+    }
+    for (lo, hi, wf) in [(-1.0, 2.0, true), (2.0, 1.0, false), (1.0, 1.0, false), (4.0, 5.0, false), (f64::NAN, 1.0, false)] {
+        // (a NaN yaw bound is clamped to the manifold's range by f64::max / min, so the STORED interval
+        // is well-formed: the property constrains the stored bounds, hence no expectation there)
+        if !lo.is_nan() {
+            let r = SE2StateSpace::new(1.0, Some(vec![(0.0, 1.0), (0.0, 1.0), (lo, hi)]));
+            o.ev(json!({"ev": "sp", "sp": "se2", "op": "newyaw", "wf": wf, "ok": r.is_ok(),
+                        "err": match &r { Err(StateSpaceError::InvalidBound { .. }) => "InvalidBound", Err(_) => "other", Ok(_) => "" }}));
+        }
+        let r = SE3StateSpace::new(1.0, Some(vec![(0.0, 1.0), (lo, hi), (0.0, 1.0)]));
+        let wf3 = lo < hi; // a translation bound: any proper interval is well-formed
+        let _ = wf;
+        o.ev(json!({"ev": "sp", "sp": "se3", "op": "newyaw", "wf": wf3, "ok": r.is_ok(),
+                    "err": match &r { Err(StateSpaceError::InvalidBound { .. }) => "InvalidBound", Err(_) => "other", Ok(_) => "" }}));
+    }
     // SE(2) / SE(3) equal the explicitly built compound with weights (1, w)
     for w in [0.0, 0.5, 1.0, 40.0] {
         let b = vec![(-3.0, 3.0), (0.0, 4.0), (-1.0, 2.0)];
